@@ -17,7 +17,7 @@ def optBool (j : Json) (k : String) (d : Bool) : Bool :=
   | .ok (.bool b) => b
   | _ => d
 
-def isWordChar (c : Char) : Bool := c.isAlphanum || c = '_' || c = '-'
+def isWordChar (c : Char) : Bool := c.isAlphanum || c = '_' || c = '-' || c.val ≥ 128   -- = Model.Config.isWordCharM
 
 /-- literal text of the regex sub-language: word characters and `\.` -/
 def litText : Str → Option Str
